@@ -97,8 +97,22 @@ func (manager *TaskManager) Create(pip pipservices.Pip) (result pipservices.Task
 	if _, ok = manager.tasks[taskname]; ok {
 		return nil, goaterr.Errorf("Task '%s' is already defined", taskname)
 	}
+	// A task is a task of the scope it is submitted to: a scope that is
+	// already done (failed, killed, stopped) refuses it and a live one waits
+	// for it until the task's scope is closed (a child scope created while its
+	// parent goes down would otherwise run unnoticed by the parent's Wait).
+	if err = parentScope.AddTasks(1); err != nil {
+		return nil, err
+	}
 	childScope = scope.NewChild(parentScope, scope.ChildParams{
 		Name: fmt.Sprintf("task:%s", taskname),
+	})
+	childScope.On(app.AfterCloseEvent, func(closed interface{}) error {
+		// (events of nested scopes are delivered here too)
+		if closed == interface{}(childScope) {
+			parentScope.DoneTask()
+		}
+		return nil
 	})
 	if err = manager.deps.NamespacesUnit.Define(childScope, childNamespaces); err != nil {
 		childScope.Close()
